@@ -228,8 +228,9 @@ Proof.
     destruct o; simpl; try (exists t; split; assumption).
     exists v. split; [reflexivity|exact Hdoc].
   - exists (PInt 10000). split; [|reflexivity].
-    cbv beta iota delta [step api_reset_default_configuration m_reset s_seq s_assign fst].
-    rewrite sget_sset_other by discriminate. apply sget_sset_same.
+    (* whatever the order in which reset writes the options: peel the writes off until the one of the sample size *)
+    cbv beta iota delta [step api_reset_default_configuration m_reset s_seq s_assign s_skip fst snd].
+    repeat first [apply sget_sset_same | rewrite sget_sset_other by discriminate].
 Qed.
 
 Lemma temporary_lemma (func : store -> store * res pv) size s :
